@@ -26,7 +26,7 @@ PROP = Prop(
                   "harness/cmd/c32 (request building, response rendering, producer-id canonicalisation) and harness/sim bubbles (virtual time)",
                   "Lean compiler/runtime for the driver"],
     assumptions=["one broker, one topic, up to 3 partitions; segments never roll (default segment.bytes), no compaction / retention",
-                 "producer epochs stay below the exhaustion threshold 32766 (bumpEpoch allocating a new producer id is not modelled)",
+                 "producer epochs stay below the exhaustion threshold 32766, except for a transaction timing out at the threshold (modelled: ended on the old producer, which is then forgotten; corpus 002)",
                  "fewer sessions than fetch.session.cache.slots; session epochs below 2^31",
                  "Fetch MinBytes = 0 (no waiting fetches), CurrentLeaderEpoch = -1",
                  "transaction expiry times of different producers never coincide and never fall exactly on the end of a sleep (the generator keeps them apart)"],
@@ -43,4 +43,3 @@ MANIFEST = {
             "several brokers / leader moves, segment rolls, compaction and retention, waiting fetches (MinBytes), producer-epoch exhaustion, persistence.",
     "technique": "Lean 4 proof (invariants by induction over all histories, refinement reuse from C29) with differential correspondence against kfake over raw protocol histories in synctest bubbles",
 }
-PENDING = True  # model being updated to the fixed kfake (c5c680e)
